@@ -226,7 +226,9 @@ func runC16(c *core.Ctx) {
 	}
 	// is a private mount namespace available?
 	canUnshare := false
-	if e.realHome != "" {
+	if e.realHome != "" && (strings.HasPrefix(c.Work, e.realHome+"/") || strings.HasPrefix(c.HR, e.realHome+"/")) {
+		c.Inconclusive("default-config-location", "the scratch directory lies inside the home directory that the private mount would hide")
+	} else if e.realHome != "" {
 		probe := exec.Command("unshare", "-m", "sh", "-c", fmt.Sprintf("mount --bind %s %s && test -d %s", e.home, e.realHome, e.realHome))
 		if out, err := probe.CombinedOutput(); err == nil {
 			canUnshare = true
